@@ -126,3 +126,46 @@ Proof.
   - now apply forallb_filter_sub.
   - rewrite E in Hend. destruct (c_end c), (end_of m stop script); cbn in Hend; congruence.
 Qed.
+
+(* ---- the account-stream case kind --------------------------------------------------------------- *)
+
+Lemma aobs_eqb_eq : forall a b, aobs_eqb a b = true -> a = b.
+Proof.
+  intros [x|x ox] [y|y oy]; cbn; try discriminate; intros H.
+  - apply N.eqb_eq in H. now subst.
+  - apply andb_true_iff in H. destruct H as [H1 H2]. apply N.eqb_eq in H1. apply Bool.eqb_prop in H2. now subst.
+Qed.
+
+Lemma list_eqb_eq' : forall {A} (eqb : A -> A -> bool),
+  (forall a b, eqb a b = true -> a = b) -> forall l1 l2, list_eqb eqb l1 l2 = true -> l1 = l2.
+Proof.
+  intros A eqb H. induction l1 as [|x t IH]; intros [|y u] E; cbn in E; try discriminate; [reflexivity|].
+  apply andb_true_iff in E. destruct E as [E1 E2]. f_equal; [now apply H|now apply IH].
+Qed.
+
+Lemma list_eqb_N_refl' : forall l, list_eqb N.eqb l l = true.
+Proof. induction l; cbn; [reflexivity|]. now rewrite N.eqb_refl. Qed.
+
+Lemma notices_obs_model : forall l, notices_obs (aobs_of_model l) = notices_of l.
+Proof.
+  induction l as [|x t IH]; [reflexivity|]. unfold notices_obs, aobs_of_model, notices_of in *.
+  destruct x; cbn [flat_map app]; rewrite ?flat_map_app; cbn [flat_map app]; now rewrite IH.
+Qed.
+
+Lemma origins_model : forall l,
+  forallb (fun x => match x with ARec _ ok => ok | ASnap _ => true end) (aobs_of_model l) = true.
+Proof.
+  induction l as [|x t IH]; [reflexivity|]. unfold aobs_of_model in *.
+  destruct x; cbn [flat_map app forallb]; try exact IH; rewrite IH; reflexivity.
+Qed.
+
+Theorem C07_acct_oracle_no_stricter_than_model : forall c pol sched ao early,
+  wf_case c = true -> corr_acct c pol sched ao early = true -> prop_acct c sched ao early = true.
+Proof.
+  intros c pol sched ao early Hwf H. unfold corr_acct in H. unfold prop_acct.
+  apply andb_true_iff in H. destruct H as [H Hl]. apply andb_true_iff in H. destruct H as [Hc He].
+  apply (list_eqb_eq' aobs_eqb aobs_eqb_eq) in Hl. subst ao.
+  rewrite (C07_oracle_no_stricter_than_model c Hwf Hc), He. cbn [andb].
+  rewrite notices_obs_model, notices_of_merged, list_eqb_N_refl'. cbn [andb].
+  apply origins_model.
+Qed.
